@@ -221,3 +221,39 @@ func c17WriteWorkspace(root string, ws map[string]string, keep map[string]bool) 
 	}
 	return nil
 }
+
+// c17URI: the document URI as an editor writes it ('+' and '%' escaped: the server query-unescapes the URI)
+func (s *c17Session) c17URI(rel string) string {
+	p := strings.Replace(s.root+"/"+rel, "%", "%25", -1)
+	return "file://" + strings.Replace(p, "+", "%2B", -1)
+}
+
+func (s *c17Session) didOpen(rel, text string) {
+	s.notify("textDocument/didOpen", map[string]interface{}{"textDocument": map[string]interface{}{
+		"uri": s.c17URI(rel), "languageId": "lua", "version": 1, "text": text}})
+}
+
+// didChangeFull replaces the whole text of an opened document
+func (s *c17Session) didChangeFull(rel, text string) {
+	s.notify("textDocument/didChange", map[string]interface{}{
+		"textDocument":   map[string]interface{}{"uri": s.c17URI(rel), "version": 2},
+		"contentChanges": []map[string]interface{}{{"text": text}}})
+}
+
+// hasDiagAtLine: does the client's present view of the file hold a diagnostic that starts on the given line?
+func (s *c17Session) hasDiagAtLine(rel string, line int) bool {
+	s.mu.Lock()
+	defer s.mu.Unlock()
+	for _, d := range s.view[rel] {
+		if d.Line == line {
+			return true
+		}
+	}
+	return false
+}
+
+func (s *c17Session) hasDiags(rel string) bool {
+	s.mu.Lock()
+	defer s.mu.Unlock()
+	return len(s.view[rel]) > 0
+}
